@@ -182,6 +182,17 @@ def handle (args : List String) (impl : List String) : String :=
   match args with
   | "conv" :: toks => handleConv toks impl
   | "shift" :: toks => handleShift toks impl
+  | "dist" :: _ =>
+    -- the geodesic library is a parameter of the model: whether the distance the conversion
+    -- accumulates between two fixes is the true one is judged by the harness against an independent
+    -- great-circle estimate (bounds from the ellipsoid's radii of curvature); the verdict is relayed,
+    -- and a position on the 45th parallel to the last digit is labelled (recorded finding)
+    let tag := if impl.contains "lat45=1" then " tag=geodesic-lat45" else ""
+    match impl with
+    | "ok" :: _ => "OK nt=1"
+    | "diff" :: rest => s!"VIOL clause=cv.true_distance{tag} " ++ String.intercalate " " (rest.filter (· != "lat45=1"))
+    | ["panic"] => "VIOL clause=cv.no_crash"
+    | _ => "BAD"
   | "pred" :: _ =>
     -- gonum's spline predictors are not modelled: the harness compares `PredictOBD` with a predictor
     -- of the same type fitted per channel (oracle on the implementation side); the verdict is relayed
